@@ -44,6 +44,8 @@ class Contract:
     self.canary = kw.pop('canary', True)
     self.at_release = dict(kw.pop('at_release', {}))   # lock expr -> clauses that must hold whenever it is released
     self.site_ghost = dict(kw.pop('site_ghost', {}))   # ghost name -> fn(interp, env): its value at a call site
+    self.abandon = kw.pop('abandon', False)          # generator: the consumer may close() it at any yield (GeneratorExit)
+    self.when = kw.pop('when', None)                # fn(interp, args, kwargs) -> bool: does this variant describe that call?
     self.variant = kw.pop('variant', '')            # distinguishes several contracts of one target
     if kw:
       raise TypeError(f'unknown contract keys {list(kw)}')
@@ -87,14 +89,22 @@ class Registry:
     self.contracts.setdefault(c.target, []).append(c)
     return c
 
-  def contract_for(self, target, prop):
+  def contract_for(self, target, prop, call=None):
+    """The contract of `target` to apply at a call site; `call` = (interp, args, kwargs) lets variants
+    that declare `when` choose by the shape of the arguments."""
     cs = self.contracts.get(target)
     if not cs:
       return None
-    for c in cs:
-      if prop in c.props:
-        return c
-    return cs[0]
+    ordered = [c for c in cs if prop in c.props] + [c for c in cs if prop not in c.props]
+    if call is not None:
+      for c in ordered:
+        if c.when is not None and c.when(*call):
+          return c
+      for c in ordered:
+        if c.when is None:
+          return c
+      return ordered[0]
+    return ordered[0]
 
   def for_prop(self, prop):
     return [c for cs in self.contracts.values() for c in cs if prop in c.props and not c.inline]
